@@ -430,6 +430,10 @@ class Node:
         return conn.ident
 
     def _assign_peer_connection(self, conn: PeerConnection):
+        if conn.state != PEER_CONNECTED:
+            # a repeated CER on an established connection, or the connection
+            # has been closed while its CER/CEA was still being handled
+            return
         if not conn.host_identity:
             return
         # the peer this connection was dialled for or accepted as; the
@@ -610,6 +614,11 @@ class Node:
             f"{conn} is now connected, waiting CER/CEA to complete")
 
     def _flag_connection_as_ready(self, conn: PeerConnection):
+        if conn.state != PEER_CONNECTED:
+            # only a connection waiting for its capabilities exchange becomes
+            # ready; a repeated CER must not bring back one that waits for a
+            # DWA, is disconnecting or has been closed in the meantime
+            return
         conn.state = PEER_READY
         for app_peers in self._peer_routes.values():
             for app, peers in app_peers.items():
@@ -1357,13 +1366,6 @@ class Node:
             f"{conn.acct_application_ids}")
 
     def receive_cer(self, conn: PeerConnection, message: CapabilitiesExchangeRequest):
-        if conn.state != PEER_CONNECTED:
-            # capabilities have been exchanged already, or the connection has
-            # been closed in the meantime; must not become ready (again)
-            self.logger.warning(
-                f"{conn} got a CER while not waiting for one, ignoring")
-            return
-
         answer: CapabilitiesExchangeAnswer = self._generate_answer(conn, message)
         answer.host_ip_address = self.ip_addresses
         answer.vendor_id = self.vendor_id
